@@ -700,10 +700,12 @@ func (req *Request) BodyE() ([]byte, error) {
 		bodyBuf.Reset()
 		zw := network.NewWriter(bodyBuf)
 		_, err := utils.CopyZeroAlloc(zw, req.bodyStream)
-		req.CloseBodyStream() //nolint:errcheck
 		if err != nil {
+			// the stream stays in place: whoever owns the connection still has to drain the
+			// rest of the body, or close the connection if that fails
 			return nil, err
 		}
+		req.CloseBodyStream() //nolint:errcheck
 		return req.BodyBytes(), nil
 	}
 	if req.OnlyMultipartForm() {
